@@ -11,7 +11,9 @@ Definition iinput := input icert imsg isig.
 Definition iout := (bool * list icert)%type.
 Definition iop := op icert imsg isig.
 Definition imout := mout icert.
-Definition case := (metadata icert * bool * list iop * list imout)%type.
+(* + every run of xmlsec1 --verify seen in that life (without repetitions): the version the binary reported, was the
+   command line confined to the certificate file, did it carry --lax-key-search *)
+Definition case := (metadata icert * bool * list iop * list imout * list call)%type.
 
 Definition icert_eqb (a b : icert) : bool :=
   match a, b with
@@ -116,6 +118,8 @@ Fixpoint seq_b (pb : list iinput -> imout -> bool) (cur : metadata icert) (only 
   | [] => match outs with [] => true | _ => false end
   | Reload m' :: r => seq_b pb m' only r outs
   | ReloadFailed :: r => seq_b pb cur only r outs
+  | Lookup _ _ :: r => seq_b pb cur only r outs
+  | Engine _ :: r => seq_b pb cur only r outs
   | Check qs :: r => match outs with
                      | o :: outs' => pb (map (at_md cur only) qs) o && seq_b pb cur only r outs'
                      | [] => false
@@ -134,35 +138,47 @@ Definition ck (claimedx : option string) (embeddedx : list icert) (detachedx : b
   Check [pt true claimedx embeddedx detachedx signer tampered].
 Definition ckm (qs : list (query icert imsg isig)) : iop := Check qs.
 
-Definition mkseq (mdx : metadata icert) (only_mdx : bool) (ops : list iop) (outs : list imout) : case :=
-  (mdx, only_mdx, ops, outs).
+Definition mkseq (mdx : metadata icert) (only_mdx : bool) (ops : list iop) (outs : list imout) (calls : list call) : case :=
+  (mdx, only_mdx, ops, outs, calls).
 
 (* one verification by a fresh receiver *)
 Definition mk (mdx : metadata icert) (only_mdx : bool) (claimedx : option string) (embeddedx : list icert)
   (detachedx : bool) (signer : nat) (tampered : bool) (obs : iout) : case :=
-  mkseq mdx only_mdx [ck claimedx embeddedx detachedx signer tampered] [(fst obs, [snd obs])].
+  mkseq mdx only_mdx [ck claimedx embeddedx detachedx signer tampered] [(fst obs, [snd obs])] [].
 
 Definition out_eqb (a b : imout) : bool :=
   Bool.eqb (fst a) (fst b) && list_eqb (list_eqb icert_eqb) (snd a) (snd b).
 
-Definition c_md (c : case) := fst (fst (fst c)).
-Definition c_only (c : case) := snd (fst (fst c)).
-Definition c_ops (c : case) := snd (fst c).
-Definition c_outs (c : case) := snd c.
+Definition c_md (c : case) := fst (fst (fst (fst c))).
+Definition c_only (c : case) := snd (fst (fst (fst c))).
+Definition c_ops (c : case) := snd (fst (fst c)).
+Definition c_outs (c : case) := snd (fst c).
+Definition c_calls (c : case) := snd c.
+
+(* the command line seen on the real code is the one Model.verify_cmdline gives for the reported version *)
+Definition call_agrees (k : call) : bool :=
+  let '(v, conf, lax) := k in
+  Bool.eqb conf (key_data_confined (verify_cmdline v)) && Bool.eqb lax (lax_key_search (verify_cmdline v)).
+(* Spec.confined_calls *)
+Definition call_confined (k : call) : bool := snd (fst k).
 
 Definition agrees (c : case) : bool :=
-  list_eqb out_eqb (run_ops iverify ireadable iblank (c_md c) (c_only c) (c_ops c)) (c_outs c).
-Definition holds (c : case) : bool := seq_b msg_spec_b (c_md c) (c_only c) (c_ops c) (c_outs c).
+  list_eqb out_eqb (run_ops iverify ireadable iblank (c_md c) (c_only c) (c_ops c)) (c_outs c)
+  && forallb call_agrees (c_calls c).
+Definition holds (c : case) : bool :=
+  seq_b msg_spec_b (c_md c) (c_only c) (c_ops c) (c_outs c) && forallb call_confined (c_calls c).
 (* class 1 only if EVERY message that fails the spec lies in finding class 1; class 2 only if every
    one lies in class 1 or 2; otherwise no class: a plain violation (the classes are per-signature: only
-   messages with one signature can be in them) *)
+   messages with one signature can be in them).  A verifier that was not confined is in no class. *)
 Definition cls (c : case) : nat :=
-  if seq_b (fun x o => msg_spec_b x o || lift1 in_f1 x o) (c_md c) (c_only c) (c_ops c) (c_outs c) then 1
+  if negb (forallb call_confined (c_calls c)) then 0
+  else if seq_b (fun x o => msg_spec_b x o || lift1 in_f1 x o) (c_md c) (c_only c) (c_ops c) (c_outs c) then 1
   else if seq_b (fun x o => msg_spec_b x o || lift1 in_f1 x o || lift1 in_f2 x o) (c_md c) (c_only c) (c_ops c) (c_outs c) then 2
   else 0.
 Definition run := run_cases agrees holds cls.
 Definition explain (c : case) :=
-  (run_ops iverify ireadable iblank (c_md c) (c_only c) (c_ops c), c_outs c, holds c, cls c).
+  (run_ops iverify ireadable iblank (c_md c) (c_only c) (c_ops c), c_outs c, holds c, cls c,
+   map (fun k => (k, verify_cmdline (fst (fst k)))) (c_calls c)).
 
 (* ---- the boolean spec is the stated spec (on the instance) ---- *)
 Lemma published_b_iff mdx e c : published_b mdx e c = true <-> published_for_signing iblank mdx e c.
@@ -319,7 +335,7 @@ Proof.
   - cbn [seq_b]. unfold seq_spec, nchecks. cbn [filter length]. split.
     + destruct outs; [|discriminate]. intros _. split; [reflexivity|]. intros pre q post E. destruct pre; discriminate.
     + intros [L _]. destruct outs; [reflexivity|discriminate].
-  - destruct o as [m'| |q0]; cbn [seq_b].
+  - destruct o as [m'| |q0|e0 u0|v0]; cbn [seq_b].
     + rewrite IH. unfold seq_spec, nchecks. cbn [filter is_check]. split.
       * intros [L H]. split; [exact L|]. intros pre q post E. destruct pre as [|p pre']; [discriminate|].
         cbn in E. injection E as E1 E2. subst p r. cbn [filter is_check loaded fold_left]. apply (H pre' q post eq_refl).
@@ -330,7 +346,8 @@ Proof.
         cbn in E. injection E as E1 E2. subst p r. cbn [filter is_check loaded fold_left]. apply (H pre' q post eq_refl).
       * intros [L H]. split; [exact L|]. intros pre q post E. subst r.
         apply (H (ReloadFailed :: pre) q post eq_refl).
-    + destruct outs as [|o outs'].
+    + (* Check *)
+      destruct outs as [|o outs'].
       * split; [discriminate|]. intros [L _]. unfold nchecks in L. cbn [filter is_check length] in L. discriminate.
       * rewrite andb_true_iff, IH, HP. unfold seq_spec, nchecks. cbn [filter is_check length]. split.
         -- intros [Ho [L H]]. split; [rewrite L; reflexivity|]. intros pre q post E. destruct pre as [|p pre'].
@@ -341,10 +358,36 @@ Proof.
            ++ destruct (H [] q0 r eq_refl) as [o' [Hn Ho]]. cbn in Hn. injection Hn as <-. exact Ho.
            ++ injection L as L. exact L.
            ++ intros pre q post E. subst r. apply (H (Check q0 :: pre) q post eq_refl).
+    + (* Lookup *)
+      rewrite IH. unfold seq_spec, nchecks. cbn [filter is_check]. split.
+      * intros [L H]. split; [exact L|]. intros pre q post E. destruct pre as [|p pre']; [discriminate|].
+        cbn in E. injection E as E1 E2. subst p r. cbn [filter is_check loaded fold_left]. apply (H pre' q post eq_refl).
+      * intros [L H]. split; [exact L|]. intros pre q post E. subst r.
+        apply (H (Lookup e0 u0 :: pre) q post eq_refl).
+    + (* Engine *)
+      rewrite IH. unfold seq_spec, nchecks. cbn [filter is_check]. split.
+      * intros [L H]. split; [exact L|]. intros pre q post E. destruct pre as [|p pre']; [discriminate|].
+        cbn in E. injection E as E1 E2. subst p r. cbn [filter is_check loaded fold_left]. apply (H pre' q post eq_refl).
+      * intros [L H]. split; [exact L|]. intros pre q post E. subst r.
+        apply (H (Engine v0 :: pre) q post eq_refl).
 Qed.
 
-Lemma holds_iff c : holds c = true <-> seq_spec (msg_spec icert_of isign iblank) (c_md c) (c_only c) (c_ops c) (c_outs c).
-Proof. unfold holds. apply seq_b_iff. exact msg_spec_b_iff. Qed.
+Lemma calls_confined_iff calls : forallb call_confined calls = true <-> confined_calls calls.
+Proof.
+  unfold confined_calls. rewrite forallb_forall. split.
+  - intros H v c l Hin. exact (H (v, c, l) Hin).
+  - intros H [[v c] l] Hin. exact (H v c l Hin).
+Qed.
+
+Lemma holds_iff c :
+  holds c = true <->
+  seq_spec (msg_spec icert_of isign iblank) (c_md c) (c_only c) (c_ops c) (c_outs c) /\ confined_calls (c_calls c).
+Proof. unfold holds. rewrite andb_true_iff, calls_confined_iff, (seq_b_iff _ _ msg_spec_b_iff). reflexivity. Qed.
+
+(* every command line the model builds is confined, for every version: the model's own runs pass the test *)
+Lemma model_calls_confined vs :
+  confined_calls (map (fun v => (v, key_data_confined (verify_cmdline v), lax_key_search (verify_cmdline v))) vs).
+Proof. intros v c l Hin. apply in_map_iff in Hin as [v' [[= _ <- _] _]]. reflexivity. Qed.
 
 (* ---- the code before the repairs (accept_v0) breaks the specification, inside the two classes ---- *)
 Definition f1_witness : iinput :=
@@ -391,3 +434,24 @@ Lemma v0_refutations_classified :
   /\ (spec_b f2_witness_default (a0 f2_witness_default) = false /\ in_f2 f2_witness_default (a0 f2_witness_default) = true
       /\ spec_b f2_witness_default (a f2_witness_default) = true).
 Proof. vm_compute. repeat split; reflexivity. Qed.
+
+(* ---- why every run must be confined: xmlsec1 on a command line without --enabled-key-data raw-x509-cert takes the
+   key from the message.  A Response in the issuer's name, signed with the unknown key 6 that it carries as a bare
+   RSAKeyValue, is accepted under the default flag although the certificate selection handed over the issuer's
+   metadata certificate only (the seeded change C03-7 under xmlsec1 >= 1.3; CVE-2021-21239) ---- *)
+Definition unconfined_cmdline : cmdline := {| key_data_confined := false; lax_key_search := true |}.
+Definition unconfined_witness : iinput :=
+  Build_input [("idp", [[(Some Signing, Gd 1)]])] true (Some "idp") [] false 7 (isign 6 7).
+
+Lemma unconfined_engine_unsound :
+  exists v x carried,
+    only_md x = true /\
+    accept (engine iverify v unconfined_cmdline carried) ireadable iblank x = (true, [Gd 1]) /\
+    ~ sound icert_of isign iblank x (accept (engine iverify v unconfined_cmdline carried) ireadable iblank x).
+Proof.
+  exists [1; 3; 7], unconfined_witness, [Gd 6]. split; [reflexivity|]. split; [vm_compute; reflexivity|].
+  intros (_ & _ & H3).
+  assert (Ha : fst (accept (engine iverify [1; 3; 7] unconfined_cmdline [Gd 6]) ireadable iblank unconfined_witness) = true)
+    by (vm_compute; reflexivity).
+  specialize (H3 Ha 6 eq_refl). apply trusted_b_iff in H3. vm_compute in H3. discriminate.
+Qed.
